@@ -227,6 +227,8 @@ TECMP::CaptureModulePayload::CaptureModulePayload()
 TECMP::CaptureModulePayload::CaptureModulePayload(const uint8_t* data, const size_t size)
     : Payload(TECMP::PayloadType::cmStatMsg, data, size)
 {
+    if (size < sizeof(Header))
+        setType(TECMP::PayloadType::invalid);
 }
 uint8_t TECMP::CaptureModulePayload::Header::getVendorId() const
 {
